@@ -72,6 +72,102 @@ def verdict(ans) -> str:
     raise core.MachineryError('unexpected judge answer %r' % (ans,))
 
 
+# ---------------------------------------------------------------------------------------------
+# reporting with shrinking: the first violations of each family are delta-debugged (elements of the
+# arrays / window lists / waveform lists are dropped while the judge still rejects the
+# implementation's output) and reported on the minimal input
+# ---------------------------------------------------------------------------------------------
+
+class _Silent(core.Ctx):
+    def violation(self, what, replay, found_input=True):
+        self.violations.append({'what': what, 'replay': None, 'found_input': found_input})
+
+    def known_finding(self, finding_id, what):
+        pass
+
+
+_MIN = {'active': False, 'count': {}}
+_GROUPS = {
+    'code': [('vs',)],
+    'times': [('durs',)],
+    'w2s': [('begins', 'lengths')],
+    'shrink': [('ws',)],
+    'average': [('ws',), ('time', 'values')],
+    'sample': [('wfs',), ('channels', 'amps', 'offs', 'trafos'), ('markers',)],
+}
+
+
+def _run_one(ctx, kind, case):
+    if kind == 'code':
+        check_code(ctx, [case], 'min')
+    elif kind == 'times':
+        check_times(ctx, [case])
+    elif kind == 'sample':
+        check_sample(ctx, [case])
+    elif kind == 'w2s':
+        check_w2s(ctx, [case])
+    elif kind == 'shrink':
+        check_shrink(ctx, [case], 'min')
+    elif kind == 'average':
+        check_average(ctx, [case], label='min')
+
+
+def _violates(ctx, kind, case) -> bool:
+    s = _Silent(ctx.pid, ctx.tier, ctx.seed)
+    try:
+        _run_one(s, kind, case)
+    except core.MachineryError:
+        return False
+    return bool(s.violations)
+
+
+def shrink_case(ctx, kind, case, budget=60):
+    best = json.loads(json.dumps(case))
+    for group in _GROUPS[kind]:
+        n = len(best[group[0]])
+        if any(not isinstance(best.get(g), list) for g in group):
+            continue
+        chunk = max(1, n // 2)
+        while chunk >= 1 and budget > 0:
+            i = 0
+            progressed = False
+            while i < len(best[group[0]]) and budget > 0:
+                cand = dict(best)
+                for g in group:
+                    cand[g] = best[g][:i] + best[g][i + chunk:]
+                if kind == 'sample' and group == ('wfs',) and not cand['wfs']:
+                    i += chunk
+                    continue
+                budget -= 1
+                if _violates(ctx, kind, cand):
+                    best = cand
+                    progressed = True
+                else:
+                    i += chunk
+            if chunk == 1 and not progressed:
+                break
+            chunk = max(1, chunk // 2) if chunk > 1 else (1 if progressed else 0)
+    return best
+
+
+def _viol(ctx, what, rep):
+    kind = rep.get('kind')
+    if (not _MIN['active'] and not isinstance(ctx, _Silent) and kind in _GROUPS and 'case' in rep
+            and _MIN['count'].get(kind, 0) < 3):
+        _MIN['count'][kind] = _MIN['count'].get(kind, 0) + 1
+        _MIN['active'] = True
+        try:
+            small = shrink_case(ctx, kind, rep['case'])
+            if small != rep['case']:
+                n = len(ctx.violations)
+                _run_one(ctx, kind, small)
+                if len(ctx.violations) > n:
+                    return
+        finally:
+            _MIN['active'] = False
+    ctx.violation(what, rep)
+
+
 # =============================================================================================
 # 1. voltage_to_uint16
 # =============================================================================================
@@ -158,6 +254,18 @@ def gen_code_cases(rng, n, label='rnd'):
     return cases
 
 
+def gen_code_exhaustive(max_r):
+    """every voltage on the eighth-of-a-step grid of the whole range, for amplitude 2^r-1 (step 2), offset 1/2;
+    plus the same array with one value an eighth outside at either end"""
+    for r in range(1, max_r + 1):
+        lv = 2 ** r - 1
+        amp, off, st = float(lv), 0.5, 2.0
+        vs = [off - amp + j * st / 8 for j in range(0, 8 * lv + 1)]
+        yield {'amp': amp, 'off': off, 'r': r, 'vs': vs, 'stream': 'exact', 'fam': 'exhaustive'}
+        yield {'amp': amp, 'off': off, 'r': r, 'vs': vs[:40] + [off - amp - st / 8], 'stream': 'exact', 'fam': 'exhaustive'}
+        yield {'amp': amp, 'off': off, 'r': r, 'vs': vs[-40:] + [off + amp + st / 8], 'stream': 'exact', 'fam': 'exhaustive'}
+
+
 def _codes(arr):
     return [int(x) for x in np.asarray(arr).tolist()]
 
@@ -197,14 +305,14 @@ def check_code(ctx, cases, label):
                 vd = 'raised-' + o[1]
             if vd != 'ok':
                 bad = True
-                ctx.violation('%s(amp=%r, off=%r, resolution=%d) on %r gave %r: %s'
+                _viol(ctx, '%s(amp=%r, off=%r, resolution=%d) on %r gave %r: %s'
                               % (name, c['amp'], c['off'], c['r'], c['vs'][:12], o, vd),
                               dict(rep, function=name, impl=repr(o), judge=vd))
                 break
         if bad:
             continue
         if i_np != i_nb or i_wr != i_np:
-            ctx.violation('voltage_to_uint16 variants differ (amp=%r, off=%r, resolution=%d) on %r: numpy %r, '
+            _viol(ctx, 'voltage_to_uint16 variants differ (amp=%r, off=%r, resolution=%d) on %r: numpy %r, '
                           'numba %r, wrapper %r' % (c['amp'], c['off'], c['r'], c['vs'][:12], i_np, i_nb, i_wr),
                           dict(rep, impl_numpy=repr(i_np), impl_numba=repr(i_nb), impl_wrapper=repr(i_wr)))
             continue
@@ -231,7 +339,7 @@ def check_code_malformed(ctx):
         ctx.count('code:malformed-resolution')
         m = model_outcome(a, lambda x: [int(t) for t in x[1]])
         if r < 1 and o != ('error', 'value_error'):
-            ctx.violation('voltage_to_uint16 accepted resolution %r: %r' % (r, o),
+            _viol(ctx, 'voltage_to_uint16 accepted resolution %r: %r' % (r, o),
                           {'kind': 'code-resolution', 'resolution': r})
         elif o != m:
             ctx.drift('voltage_to_uint16 resolution check', {'kind': 'code-resolution', 'resolution': r},
@@ -240,7 +348,7 @@ def check_code_malformed(ctx):
         ctx.case('code-resolution-%r' % (r,), nontrivial=False)
         o = outcome(lambda: _codes(U.voltage_to_uint16(v.copy(), 1.0, 0.0, r)))
         if o[0] == 'ok':
-            ctx.violation('voltage_to_uint16 accepted the non-integer resolution %r' % (r,),
+            _viol(ctx, 'voltage_to_uint16 accepted the non-integer resolution %r' % (r,),
                           {'kind': 'code-resolution', 'resolution': repr(r)})
 
 
@@ -313,7 +421,7 @@ def check_times(ctx, cases):
         if o[0] != m[0] or (o[0] == 'error' and o[1] != m[1]):
             # judge: by sample_times_spec the call must succeed iff every duration is a positive
             # multiple of the sample period within the tolerance
-            ctx.violation('get_sample_times(durations=%s, rate=%s) gave %r, specification %r'
+            _viol(ctx, 'get_sample_times(durations=%s, rate=%s) gave %r, specification %r'
                           % ([str(F(*d)) for d in c['durs']], sr, o if o[0] == 'error' else 'ok', m[0:1] + (m[1],) if m[0] == 'error' else 'ok'),
                           dict(rep, impl=repr(o)[:300], spec=repr(m)[:300]))
             continue
@@ -322,15 +430,21 @@ def check_times(ctx, cases):
         t_impl, n_impl = o[1]
         t_mod, n_mod = m[1]
         if n_impl != n_mod:
-            ctx.violation('get_sample_times lengths %r, specification round(duration*rate) = %r' % (n_impl, n_mod),
+            _viol(ctx, 'get_sample_times lengths %r, specification round(duration*rate) = %r' % (n_impl, n_mod),
                           dict(rep, impl=repr(n_impl), spec=repr(n_mod)))
             continue
-        # times: the model says k / rate exactly; the code divides k by float(rate), one correctly rounded
-        # float division: equal to the correctly rounded value of the exact quotient of k and float(rate)
-        want = [float(F(k) / fr(float(sr))) for k in range(len(t_mod))]
+        # times: the model says k / rate exactly.  For a power-of-two rate every way of computing k/rate in
+        # floats is exact; otherwise the quotient is rounded and 2^-40 relative is allowed.
+        # (a longer array is still "sufficient for the longest waveform": only its entries are checked)
+        srf = fr(float(sr))
+        pow2 = srf.numerator == 1 or (srf.denominator == 1 and srf.numerator & (srf.numerator - 1) == 0)
         model_ok = all(t == F(k) / sr for k, t in enumerate(t_mod))
-        if len(t_impl) != len(t_mod) or t_impl != want or not model_ok:
-            ctx.violation('get_sample_times time array is not k/rate: %r' % (t_impl[:8],),
+
+        def time_ok(k, x):
+            want = F(k) / srf
+            return F(x) == want if pow2 else abs(F(x) - want) <= TOL * max(1, abs(want))
+        if len(t_impl) < len(t_mod) or not model_ok or not all(time_ok(k, x) for k, x in enumerate(t_impl)):
+            _viol(ctx, 'get_sample_times time array is not k/rate: %r' % (t_impl[:8],),
                           dict(rep, impl=repr(t_impl[:20]), spec=repr([str(x) for x in t_mod[:20]])))
 
 
@@ -566,13 +680,13 @@ def check_sample(ctx, cases):
                 ctx.count('sample:waveform:%s' % p[0])
         rep = {'kind': 'sample', 'case': c}
         if o[0] == 'ok' and jv != 'ok':
-            ctx.violation('_sample_waveforms output is not (trafo(v(k/rate)) - offset)/amplitude resp. v != 0 for '
+            _viol(ctx, '_sample_waveforms output is not (trafo(v(k/rate)) - offset)/amplitude resp. v != 0 for '
                           'channels=%r markers=%r amps=%r offs=%r trafos=%r rate=%s waveforms=%r'
                           % (c['channels'], c['markers'], c['amps'], c['offs'], c['trafos'], F(*c['sr']),
                              c['wfs'])[:900], dict(rep, impl=repr(o)[:600], judge=jv))
             continue
         if o[0] == 'error' and m[0] == 'ok':
-            ctx.violation('_sample_waveforms raised %s although every waveform has a whole number of samples and '
+            _viol(ctx, '_sample_waveforms raised %s although every waveform has a whole number of samples and '
                           'defines every requested channel (channels=%r markers=%r waveforms=%r)'
                           % (o[1], c['channels'], c['markers'], c['wfs']), dict(rep, impl=repr(o)))
             continue
@@ -700,32 +814,39 @@ def check_w2s(ctx, cases):
         lines.append(sx(['c20', 'w2s', 'np', fr(sr), ws]))
         lines.append(sx(['c20', 'w2s', 'nb', fr(sr), ws]))
         lines.append(sx(['c20', 'judge-w2s', fr(sr), ws, [list(p) for p in i_np[1]] if i_np[0] == 'ok' else []]))
+        lines.append(sx(['c20', 'judge-w2s', fr(sr), ws, [list(p) for p in i_nb[1]] if i_nb[0] == 'ok' else []]))
     ans = core.Lean.run(lines)
     for idx, (c, (i_np, i_nb, i_wr)) in enumerate(zip(cases, impl)):
-        a = ans[3 * idx: 3 * idx + 3]
+        a = ans[4 * idx: 4 * idx + 4]
         conv = lambda x: [(int(p[0]), int(p[1])) for p in x[1]]
         m_np, m_nb = model_outcome(a[0], conv), model_outcome(a[1], conv)
-        ctx.case(lines[3 * idx], nontrivial=len(c['begins']) > 1)
+        ctx.case(lines[4 * idx], nontrivial=len(c['begins']) > 1)
         srt = c['begins'] == sorted(c['begins'])
         ties = len(set(c['begins'])) < len(c['begins'])
         ctx.count('w2s:%s:%s%s' % (c['stream'], 'sorted' if srt else 'unsorted', '+ties' if ties else ''))
         rep = {'kind': 'w2s', 'case': c}
         if i_np[0] != 'ok' or i_nb[0] != 'ok' or i_wr[0] != 'ok':
-            ctx.violation('time_windows_to_samples raised on non-negative windows: %r %r %r' % (i_np, i_nb, i_wr),
+            _viol(ctx, 'time_windows_to_samples raised on non-negative windows: %r %r %r' % (i_np, i_nb, i_wr),
                           dict(rep, impl=repr((i_np, i_nb, i_wr))[:400]))
             continue
+        if c['stream'] == 'exact':
+            bad = False
+            for name, o, j in (('_time_windows_to_samples_numpy', i_np, a[2]), ('_time_windows_to_samples_numba', i_nb, a[3])):
+                jv = verdict(j)
+                if jv != 'ok':
+                    bad = True
+                    _viol(ctx, '%s(begins=%r, lengths=%r, rate=%r) = %r: %s'
+                                  % (name, c['begins'][:10], c['lengths'][:10], c['sr'], o[1][:10], jv),
+                                  dict(rep, function=name, impl=repr(o), judge=jv))
+                    break
+            if bad:
+                continue
         if i_np != i_nb or i_wr != i_np:
-            ctx.violation('time_windows_to_samples variants differ for begins=%r lengths=%r rate=%r: numpy %r numba %r'
+            _viol(ctx, 'time_windows_to_samples variants differ for begins=%r lengths=%r rate=%r: numpy %r numba %r'
                           % (c['begins'][:10], c['lengths'][:10], c['sr'], i_np[1][:10], i_nb[1][:10]),
                           dict(rep, impl_numpy=repr(i_np), impl_numba=repr(i_nb), impl_wrapper=repr(i_wr)))
             continue
-        jv = verdict(a[2])
         if c['stream'] == 'exact':
-            if jv != 'ok':
-                ctx.violation('time_windows_to_samples(begins=%r, lengths=%r, rate=%r) = %r: %s'
-                              % (c['begins'][:10], c['lengths'][:10], c['sr'], i_np[1][:10], jv),
-                              dict(rep, impl=repr(i_np), judge=jv))
-                continue
             if _canon_ties(i_np[1], c['begins']) != _canon_ties(m_np[1], c['begins']) or \
                     _canon_ties(i_nb[1], c['begins']) != _canon_ties(m_nb[1], c['begins']):
                 ctx.drift('time_windows_to_samples vs QP.C20.w2sNumpy/w2sNumba', rep, repr((i_np, i_nb))[:300],
@@ -733,7 +854,7 @@ def check_w2s(ctx, cases):
             continue
         # toleranced stream: float product begins*rate is inexact; compare elementwise after ordering
         order = sorted(range(len(c['begins'])), key=lambda i: c['begins'][i])
-        got = _canon_ties(i_np[1], c['begins'])
+        got = _canon_ties(i_np[1], c['begins'])      # both variants are identical here
         want = _canon_ties(m_np[1], c['begins'])
         bad = None
         if len(got) != len(want):
@@ -753,7 +874,7 @@ def check_w2s(ctx, cases):
                     if bad_l:
                         bad = 'length %d: %d, floor is %d' % (k, gl, wl)
         if bad:
-            ctx.violation('time_windows_to_samples(begins=%r, lengths=%r, rate=%r) = %r: %s'
+            _viol(ctx, 'time_windows_to_samples(begins=%r, lengths=%r, rate=%r) = %r: %s'
                           % (c['begins'][:10], c['lengths'][:10], c['sr'], i_np[1][:10], bad),
                           dict(rep, impl=repr(i_np), spec=repr(m_np), judge=bad))
 
@@ -846,15 +967,15 @@ def check_shrink(ctx, cases, label):
         for name, o, j in (('_shrink_overlapping_windows_numpy', i_np, a[2]), ('_shrink_overlapping_windows_numba', i_nb, a[3])):
             if o[0] == 'ok' and verdict(j) != 'ok':
                 bad = True
-                ctx.violation('%s(%r) = %r: %s' % (name, ws[:12], o[1], verdict(j)),
+                _viol(ctx, '%s(%r) = %r: %s' % (name, ws[:12], o[1], verdict(j)),
                               dict(rep, function=name, impl=repr(o), judge=verdict(j)))
             if o[0] == 'error' and o[1] != 'value_error':
                 bad = True
-                ctx.violation('%s(%r) raised %s' % (name, ws[:12], o[1]), dict(rep, function=name, impl=repr(o)))
+                _viol(ctx, '%s(%r) raised %s' % (name, ws[:12], o[1]), dict(rep, function=name, impl=repr(o)))
         if bad:
             continue
         if i_np != i_nb or w_np != i_np or w_nb != i_nb:
-            ctx.violation('shrink_overlapping_windows variants differ on windows (begin, length) %r: numpy %r, numba %r '
+            _viol(ctx, 'shrink_overlapping_windows variants differ on windows (begin, length) %r: numpy %r, numba %r '
                           '(wrapper: use_numba=False %r, use_numba=True %r)' % (ws[:12], i_np, i_nb, w_np, w_nb),
                           dict(rep, impl_numpy=repr(i_np), impl_numba=repr(i_nb), wrapper_numpy=repr(w_np),
                                wrapper_numba=repr(w_nb),
@@ -969,7 +1090,7 @@ def check_average(ctx, cases, label='rnd'):
         ctx.count('average:%s:%s' % (label, 'in-class-PF-23' if cls else 'ordered-windows'))
         rep = {'kind': 'average', 'case': c}
         if i_np[0] != 'ok' or i_nb[0] != 'ok' or i_wr[0] != 'ok':
-            ctx.violation('average_windows raised: %r %r %r' % (i_np, i_nb, i_wr), dict(rep, impl=repr((i_np, i_nb, i_wr))[:400]))
+            _viol(ctx, 'average_windows raised: %r %r %r' % (i_np, i_nb, i_wr), dict(rep, impl=repr((i_np, i_nb, i_wr))[:400]))
             continue
         if i_np[1] != i_nb[1]:
             if cls and any(k.get('finding') == 'PF-23' for k in ctx.findings.for_property('C20')):
@@ -977,12 +1098,12 @@ def check_average(ctx, cases, label='rnd'):
                 ctx.known_finding('PF-23', '_average_windows_numba differs from _average_windows_numpy for windows that '
                                            'are not ordered by begin and by end (nested or unsorted windows)')
             else:
-                ctx.violation('average_windows variants differ for windows ordered by begin and end: time=%r values=%r '
+                _viol(ctx, 'average_windows variants differ for windows ordered by begin and end: time=%r values=%r '
                               'windows=%r: numpy %r, numba %r' % (c['time'][:12], c['values'][:12], c['ws'], i_np[1], i_nb[1]),
                               dict(rep, impl_numpy=repr(i_np), impl_numba=repr(i_nb)))
                 continue
         if i_wr[1] != i_np[1] and i_wr[1] != i_nb[1]:
-            ctx.violation('average_windows differs from both variants', dict(rep, impl=repr(i_wr)))
+            _viol(ctx, 'average_windows differs from both variants', dict(rep, impl=repr(i_wr)))
             continue
         if i_np[1] != m_np or i_nb[1] != m_nb:
             if i_np[1] != m_np and not cls:
@@ -999,7 +1120,7 @@ def check_average_malformed(ctx):
         ctx.case('average-malformed-%d-%d-%d' % (len(v), len(b), len(e)), nontrivial=False)
         o = outcome(lambda: P.average_windows(t, v, b, e))
         if o != ('error', 'assertion'):
-            ctx.violation('average_windows accepted mismatching shapes: %r' % (o,), {'kind': 'average-malformed'})
+            _viol(ctx, 'average_windows accepted mismatching shapes: %r' % (o,), {'kind': 'average-malformed'})
 
 
 # =============================================================================================
@@ -1104,21 +1225,22 @@ def run(ctx: core.Ctx):
         escalate = bool(changed)
     scale = 1.0 if ctx.quick else 25.0
     if ctx.quick and escalate:
-        scale = 4.0
+        scale = 2.0
     for rec in ctx.corpus():
         replay(ctx, rec, from_corpus=True)
         ctx.corpus_replayed += 1
-    for fam in FAMILIES:
-        run_family(ctx, fam, scale)
     bound = (3, 4, 3) if ctx.quick else (4, 4, 3)
-    if not ctx.quick:
-        # 4 windows: 20^4 = 160 000 lists
-        pass
     ex = list(gen_shrink_exhaustive(*bound))
     ctx.exhaustive_spaces.append('shrink_overlapping_windows: all lists of <=%d windows with begin<=%d, length<=%d (%d lists)'
                                  % (bound + (len(ex),)))
     for i in range(0, len(ex), 20000):
         check_shrink(ctx, ex[i:i + 20000], 'exh')
+    max_r = 6 if ctx.quick else 9
+    ctx.exhaustive_spaces.append('voltage_to_uint16: every voltage on the 1/8-step grid over the whole range (and one eighth '
+                                 'outside either end) for resolutions 1..%d, amplitude 2^r-1, offset 1/2' % max_r)
+    check_code(ctx, list(gen_code_exhaustive(max_r)), 'exh')
+    for fam in FAMILIES:
+        run_family(ctx, fam, scale)
     # failing-input search: more boundary and random cases of the families that drifted, judged on the
     # implementation's output (every check_* judges each case)
     if ctx.drifts and not any(v['found_input'] for v in ctx.violations):
